@@ -459,7 +459,8 @@ def check_tool_paths(ctx, tool):
                         tgx.args) == 1 and isinstance(
                             tgx.args[0], ast.Call) and (prog.resolve(
                                 tool.module, tgx.args[0].func) or ''
-                            ).endswith(('jsonutils.loads', 'json.loads'))
+                            ).endswith(('jsonutils.loads', 'json.loads',
+                                        'jsonutils.load', 'json.load'))
                 if not ok:
                     bad_target = bad_target or (
                         p, 'with a target file the rules are not evaluated '
@@ -615,6 +616,9 @@ def check_default(ctx, tool):
     ctx.floor('C19.DEFAULT', len(loads), 1, 'rule-set constructions')
     for c in loads:
         dr = kwarg(c, 'default_rule', 1)
+        if isinstance(dr, ast.Name) and isinstance(
+                tool.module.consts.get(dr.id), ast.Constant):
+            dr = tool.module.consts[dr.id]      # a module-level constant
         ok = dr is not None and is_const(dr) and dr.value == want
         ctx.ob('C19.DEFAULT', ok, ctx.where(tool.module, c), tool.qual,
                U(c)[:80], 'the tool falls back to the same default rule '
@@ -883,6 +887,27 @@ def check_eval_guard(ctx, tool):
                     isinstance(y, ast.Raise) for y in ast.walk(h))
                 for h, names in covering_handlers(prog, tool, pmt, x))
                 for x in csites)
+        if not ok:
+            # inside `with <object of a program class with __exit__>:` -
+            # such an object may swallow the error; what its __exit__
+            # answers is not read
+            cur = c
+            anc = pm.get(cur)
+            while anc is not None:
+                if isinstance(anc, ast.With):
+                    for it in anc.items:
+                        ce = it.context_expr
+                        q = prog.resolve(ev.module, ce.func) if isinstance(
+                            ce, ast.Call) else None
+                        if q in prog.classes and prog.find_method(
+                                q, '__exit__') is not None:
+                            raise AnalysisError(
+                                'the rule evaluation at line %d runs inside '
+                                '`with %s`: whether that context manager '
+                                'suppresses an evaluation error (its '
+                                '__exit__) is not read' % (c.lineno,
+                                                           U(ce)[:40]))
+                cur, anc = anc, pm.get(anc)
         n += 1
         caught = sorted({nm.split(':')[-1] for h, names in hs
                          for nm in names})
